@@ -138,6 +138,49 @@ func main() {
 		cmdCheck(os.Args[2:])
 	case "worker":
 		cmdWorker(os.Args[2:])
+	case "loops":
+		// developer aid: loop / iterator-call / closure ordinals and call-site ordinals of a function
+		v, err := loadVerifier("/repo", "/verif/contracts/extern")
+		if err != nil {
+			fmt.Fprintln(os.Stderr, err)
+			os.Exit(2)
+		}
+		for _, k := range os.Args[2:] {
+			c, err := v.newCtx(k)
+			if err != nil {
+				fmt.Println(err)
+				continue
+			}
+			type ent struct {
+				pos  string
+				what string
+			}
+			var es []ent
+			for n, o := range c.loopOrd {
+				kind := "loop"
+				if o > 1000 {
+					kind = "closure"
+					o -= 1000
+				}
+				es = append(es, ent{c.pos(n), fmt.Sprintf("%s %d", kind, o)})
+			}
+			c.siteOrd(nil, "")
+			for ce, o := range c.siteOrds {
+				if ci := c.calleeOf(ce); ci.fn != nil {
+					es = append(es, ent{c.pos(ce), fmt.Sprintf("call %s#%d", typesFuncKey(ci.fn), o)})
+				}
+			}
+			sort.Slice(es, func(i, j int) bool {
+				a, b := es[i].pos, es[j].pos
+				if len(a) != len(b) {
+					return len(a) < len(b)
+				}
+				return a < b
+			})
+			for _, e := range es {
+				fmt.Printf("%-40s %s\n", e.pos, e.what)
+			}
+		}
 	case "effects":
 		v, err := loadVerifier("/repo", "/verif/contracts/extern")
 		if err != nil {
